@@ -66,3 +66,11 @@ Definition run_seq (dflt : string) (steps : list dstep) : list mvalue := map (ru
 
 Definition mvalue_eqb : mvalue -> mvalue -> bool :=
   list_eqb (fun a b => (fst a =? fst b) && String.eqb (snd a) (snd b)).
+
+(* ---- several request messages received on ONE wrapped stream (client-streaming / bidi) ----
+   absentNameReplaceServerStream.RecvMsg keeps no state between messages: every successfully
+   received message is treated exactly as the unary interceptor treats a request. *)
+Definition unary_msg (dflt : string) (t : mtype) (v : mvalue) : mvalue := replace_in t v dflt.
+Definition recvd := (bool * mtype * mvalue)%type.      (* RecvMsg succeeded?, type, content *)
+Definition stream_session (dflt : string) (rs : list recvd) : list mvalue :=
+  map (fun r => let '(ok, t, v) := r in if ok : bool then unary_msg dflt t v else v) rs.
